@@ -121,7 +121,7 @@ impl Property for C05 {
         "C05"
     }
     fn rule(&self) -> String {
-        "templates 'pay' (input with min_amount Ada(q) [+ fees], target output, 0..4 extra outputs some sized with min_utxo, optional change output source - q - extras - fees with optional datum, optional metadata) lowered from source text and resolved with the real resolve_tx against a single-UTxO store; protocol parameters over a in {0,1,43,44,100,255,256,999,1000} x b in {0,155381,10^6} x margin in {None,0,n} x max_optimize_rounds in {0,3,10}; the UTxO amount is placed so that the change (and therefore the fee) sits within +-1200 of a CBOR width boundary (23/24, 255/256, 2^16, 2^32) after a probe resolution. Oracle: decoded body fee = CompiledTx.fee = a*len(payload)+b+margin; decoded change = input - q - extras - body fee; the selected input covers min_amount at that fee. The compiler wrapper's per-round log (fee applied, length, fee reported) classifies failures. Non-trivial: the resolution needed >= 2 rounds; distinct = distinct (shape, pparams, amount).".into()
+        "templates 'pay' (input with min_amount Ada(q) [+ fees], target output, 0..4 extra outputs some sized with min_utxo, optional change output source - q - extras - fees with optional datum, optional metadata, in 2 of 7 cases an optional first output that is emitted or dropped) lowered from source text and resolved with the real resolve_tx against a single-UTxO store; protocol parameters over a in {0,1,43,44,100,255,256,999,1000} x b in {0,155381,10^6} x margin in {None,0,n} x max_optimize_rounds in {0,3,10}; the UTxO amount is placed so that the change (and therefore the fee) sits within +-1200 of a CBOR width boundary (23/24, 255/256, 2^16, 2^32) after a probe resolution. Oracle: decoded body fee = CompiledTx.fee = a*len(payload)+b+margin; decoded change = input - q - extras - body fee; the selected input covers min_amount at that fee. The compiler wrapper's per-round log (fee applied, length, fee reported) classifies failures. Non-trivial: the resolution needed >= 2 rounds; distinct = distinct (shape, pparams, amount).".into()
     }
     fn assumptions(&self) -> Vec<String> {
         vec!["Err results are out of scope (the statement is about returned transactions)".into()]
@@ -133,7 +133,7 @@ impl Property for C05 {
         }
     }
     fn required_features(&self, _tier: Tier) -> Vec<String> {
-        ["outcome/ok", "rounds/2", "rounds/3", "shape/min_utxo", "shape/change", "shape/fees-in-min", "boundary/crossed-width", "margin/none", "margin/zero"].iter().map(|s| s.to_string()).collect()
+        ["outcome/ok", "rounds/2", "rounds/3", "shape/min_utxo", "shape/change", "shape/fees-in-min", "boundary/crossed-width", "margin/none", "margin/zero", "shape/dropped-optional-output"].iter().map(|s| s.to_string()).collect()
     }
     fn run_case(&self, ctx: &mut Ctx, phase: &str, idx: u64, rng: &mut Rng) {
         let extra = rng.usize(5);
@@ -145,8 +145,15 @@ impl Property for C05 {
             datum_on_change: rng.chance(1, 4),
             token_in_change: rng.chance(1, 4),
             metadata: rng.chance(1, 5),
-            gift: None,
+            gift: match rng.below(7) {
+                0 => Some(0),
+                1 => Some(1_300_000),
+                _ => None,
+            },
         };
+        if shape.gift == Some(0) {
+            ctx.count("shape/dropped-optional-output");
+        }
         if !shape.min_utxo_on.is_empty() {
             ctx.count("shape/min_utxo");
         }
@@ -181,7 +188,9 @@ impl Property for C05 {
         };
         let q: i128 = rng.range(1_000_000, 3_000_000) as i128;
         let token = if shape.token_in_change { rng.range(1, 1_000_000) as i128 } else { 0 };
-        let extras_fixed: i128 = (0..shape.extra_outputs).filter(|k| !shape.min_utxo_on.contains(k)).map(|k| 1_500_000 + k as i128).sum();
+        let extras_fixed: i128 = (0..shape.extra_outputs).filter(|k| !shape.min_utxo_on.contains(k)).map(|k| 1_500_000 + k as i128).sum::<i128>() + shape.gift.unwrap_or(0);
+        // position of the first extra output in the body (after `target`, and after `gift` when it is emitted)
+        let first_extra = 1 + matches!(shape.gift, Some(g) if g > 0) as usize;
 
         let run = |lovelace: i128| {
             let store = LoggedStore::new(single_utxo_store(lovelace, token, 9));
@@ -197,7 +206,7 @@ impl Property for C05 {
         };
         // min-utxo extras are worth about this much (197 or measured bytes * coins_per_byte): learn from the probe
         let extras_min_utxo: i128 = match &probe {
-            Ok(Ok(c)) => txview::view(&c.payload).map(|v| shape.min_utxo_on.iter().map(|k| v.tx.outputs.get(1 + k).map(|o| (&o.lovelace).try_into().unwrap_or(0i128)).unwrap_or(0)).sum()).unwrap_or(0),
+            Ok(Ok(c)) => txview::view(&c.payload).map(|v| shape.min_utxo_on.iter().map(|k| v.tx.outputs.get(first_extra + k).map(|o| (&o.lovelace).try_into().unwrap_or(0i128)).unwrap_or(0)).sum()).unwrap_or(0),
             _ => 0,
         };
         let boundary = *rng.pick(&BOUNDARIES);
